@@ -1706,8 +1706,9 @@ class HTMLDependency(MetadataNode):
 
         return Tag(
             "script",
-            # "</script>" in a script tag must be escaped
-            json.dumps(res, indent=indent).replace("</script>", "<\\/script>"),
+            # "</script" (in any letter case, with or without the closing ">") must not
+            # appear inside a script tag, so escape every "</". In JSON, "\\/" is "/".
+            json.dumps(res, indent=indent).replace("</", "<\\/"),
             type="application/json",
             data_html_dependency=True,
         )
